@@ -93,7 +93,7 @@ struct C20 : Property
 			api = 4; // the depth argument only exists on json_object_from_fd_ex
 		// errno is a hidden input of the calling thread: whatever an earlier, unrelated call left there must not matter
 		static const int stale[] = {0, 0, EINTR, EAGAIN, ENOMEM, EIO, EBADF};
-		t.a = {api, arg1, (int64_t)r.below(4), (int64_t)r.below(100000), stale[r.below(7)]};
+		t.a = {api, arg1, (int64_t)r.below(4), (int64_t)r.below(100000), stale[r.below(7)], (int64_t)(r.below(3) == 0)}; // last: the descriptor is a pipe (fstat size 0, lseek ESPIPE) instead of a regular file
 		p.ops.push_back(t);
 		return p;
 	}
@@ -164,6 +164,7 @@ struct C20 : Property
 		static const char *names[6] = {"to_fd", "to_file", "to_file_ext", "from_fd", "from_fd_ex", "from_file"};
 		e.kind = names[api];
 		g_fd.reset_run();
+		g_fd.as_fifo = op.arg(5) == 1;
 		// sentinel message so that "a new message" is observable
 		(void)LIB(json_object_to_fd(1, nullptr, 0)); // documented failure: sets "json_object_to_fd: object is null"
 		std::string sentinel = json_util_get_last_err() ? json_util_get_last_err() : "";
